@@ -1,3 +1,5 @@
 #!/bin/sh
-# Build the framework offline. Real work is done by ./check --setup (added later).
-exit 0
+# Build the framework offline from files on disk (cargo registry cache + /repo).
+cd "$(dirname "$0")" || exit 2
+export CARGO_NET_OFFLINE=true
+exec ./check --setup
